@@ -152,6 +152,7 @@ public :
     // -----------------------------------------------------------------------
     bool emitErrorWillThrowException(const XMLErrs::Codes toEmit);
     void emitError(const XMLErrs::Codes toEmit);
+    void checkEntityExpansionLimit();
     void emitError
     (
         const   XMLErrs::Codes    toEmit
@@ -1174,6 +1175,18 @@ inline bool XMLScanner::getIgnoreAnnotations() const
 inline bool XMLScanner::getDisableDefaultEntityResolution() const
 {
     return fDisableDefaultEntityResolution;
+}
+
+// Counts one more entity expansion (general or parameter entity, wherever it
+// occurs) and reports a fatal error once the SecurityManager's limit is passed.
+inline void XMLScanner::checkEntityExpansionLimit()
+{
+    if (fSecurityManager != 0 && ++fEntityExpansionCount > fEntityExpansionLimit) {
+        XMLCh expLimStr[32];
+        XMLString::sizeToText(fEntityExpansionLimit, expLimStr, 31, 10, fMemoryManager);
+        emitError(XMLErrs::EntityExpansionLimitExceeded, expLimStr);
+        fEntityExpansionCount = 0;
+    }
 }
 
 inline bool XMLScanner::getSkipDTDValidation() const
